@@ -1,2 +1,179 @@
+(* C07 — The host only counter-signs economically safe revisions.
+   Statements only; every proof is [exact lemma].  Model: Revision/Model.v = rhp/contracts.go
+   WITH fixes/C07-revision-validation-panics.patch.
+
+   Vocabulary (Revision/Proofs.v):
+     vr/vh r        renter / host valid payout   (outputs 0 / 1 of ValidProofOutputs)
+     mr/mh/mvoid r  renter / host / void missed payout (outputs 0 / 1 / 2 of MissedProofOutputs)
+     sumv l         sum of the output values of l (unbounded)
+     wf r           2 valid / 3 missed outputs with equal sums — the shape of every contract the
+                    host stores: accepted formations/renewals establish the 2/3 shape
+                    (C12: c12_*_establish_shape), consensus the equal sums, and every accepted
+                    revision preserves both (conjunct [wf rv] below)
+     inrange r      every output value < 2^128 (types.Currency is 128 bit)
+     safe_revision cur rv price maxburn :=
+        rnum cur < rnum rv                                       revision number strictly increases
+     /\ ruh rv = ruh cur /\ ruc rv = ruc cur                      unlock hash / unlock conditions unchanged
+     /\ rws rv = rws cur /\ rwe rv = rwe cur                      proof window unchanged
+     /\ length (rvalid rv) = length (rvalid cur) /\ length (rmissed rv) = length (rmissed cur)
+     /\ map oaddr (rvalid rv) = map oaddr (rvalid cur) /\ map oaddr (rmissed rv) = map oaddr (rmissed cur)
+     /\ sumv (rvalid rv) = sumv (rvalid cur) /\ sumv (rmissed rv) = sumv (rmissed cur)
+     /\ vr rv <= vr cur /\ mr rv <= mr cur                        no renter payout increases
+     /\ vh cur + price <= vh rv                                   host valid payout +>= price
+     /\ mh cur <= mh rv + maxburn                                 host missed payout -<= maxburn
+     cleared cur fin payment :=
+        rsize fin = 0 /\ rroot fin = 0 /\ rnum fin = max64 /\ rmissed fin = rvalid fin
+     /\ unlock hash/conditions and window unchanged /\ two valid outputs with unchanged addresses
+     /\ valid sum unchanged /\ vr fin <= vr cur /\ vh cur + payment <= vh fin *)
 From HostdBase Require Import Base.
 From HostdRevision Require Import Model Proofs.
+From HostdRevision Require Legacy.
+Local Open Scope N_scope.
+
+(* RPCRead / RPCWrite / RPCSectorRoots: price = payment, at most [collateral] is put at risk *)
+Theorem c07_validate_revision_sound : forall cur rv payment collateral transfer burn,
+  wf cur -> inrange cur ->
+  validate_revision cur rv payment collateral = Ok (transfer, burn) ->
+  safe_revision cur rv payment collateral /\
+  transfer = vh rv - vh cur /\ transfer = vr cur - vr rv /\ burn = mh cur - mh rv /\
+  payment <= transfer /\ burn <= collateral /\
+  wf rv /\ inrange rv.
+Proof. exact validate_revision_safe. Qed.
+Print Assumptions c07_validate_revision_sound.
+
+(* program finalisation: the RPC itself is paid from the budget (price 0); the host burns at
+   most storage + collateral, into the void output, nothing else moves *)
+Theorem c07_validate_program_sound : forall cur rv storage collateral burn,
+  wf cur -> inrange cur ->
+  validate_program cur rv storage collateral = Ok burn ->
+  safe_revision cur rv 0 (storage + collateral) /\
+  burn = mh cur - mh rv /\ burn <= storage + collateral /\ mvoid rv = mvoid cur + burn /\
+  vr rv = vr cur /\ vh rv = vh cur /\ mr rv = mr cur /\
+  wf rv /\ inrange rv.
+Proof. exact validate_program_safe. Qed.
+Print Assumptions c07_validate_program_sound.
+
+(* pay-by-contract / fund-account: exactly [payment] moves from both renter payouts to both
+   host payouts *)
+Theorem c07_validate_payment_sound : forall cur rv payment,
+  wf cur -> inrange cur ->
+  validate_payment cur rv payment = Ok tt ->
+  safe_revision cur rv payment 0 /\
+  vr rv = vr cur - payment /\ mr rv = mr cur - payment /\ payment <= vr cur /\ payment <= mr cur /\
+  vh rv = vh cur + payment /\ mh rv = mh cur + payment /\
+  wf rv /\ inrange rv.
+Proof. exact validate_payment_safe. Qed.
+Print Assumptions c07_validate_payment_sound.
+
+(* clearing revision (any shape of the current revision) *)
+Theorem c07_validate_clearing_sound : forall cur fin payment toHost,
+  inrange cur -> inrange fin ->
+  validate_clearing cur fin payment = Ok toHost ->
+  cleared cur fin payment /\ toHost = vh fin - vh cur /\ toHost = vr cur - vr fin /\ payment <= toHost.
+Proof. exact validate_clearing_sound. Qed.
+Print Assumptions c07_validate_clearing_sound.
+
+(* the shared structural checks, for a current revision of ANY shape *)
+Theorem c07_validate_std_sound_any_shape : forall cur rv,
+  validate_std cur rv = Ok tt -> std_ok cur rv.
+Proof. exact validate_std_sound. Qed.
+Print Assumptions c07_validate_std_sound_any_shape.
+
+(* accepted revisions keep the contract well-formed (and establish equal sums by themselves) *)
+Theorem c07_accepted_revision_preserves_wf : forall cur rv,
+  wf cur -> std_ok cur rv -> wf rv /\ sumv (rmissed rv) = sumv (rmissed cur).
+Proof. exact std_ok_preserves_wf. Qed.
+Print Assumptions c07_accepted_revision_preserves_wf.
+
+Theorem c07_accepted_revision_equal_sums : forall cur rv,
+  std_ok cur rv -> sumv (rvalid rv) = sumv (rmissed rv).
+Proof. exact std_ok_equal_sums. Qed.
+Print Assumptions c07_accepted_revision_equal_sums.
+
+(* after a clearing revision (revision number = max) no further revision is accepted *)
+Theorem c07_cleared_is_final : forall cur rv,
+  rnum cur = max64 -> rnum rv <= max64 -> validate_std cur rv <> Ok tt.
+Proof. exact cleared_is_final. Qed.
+Print Assumptions c07_cleared_is_final.
+
+(* Revise / ClearingRevision build the candidate from the renter's number and values only *)
+Theorem c07_revise_from_renter_values : forall r num vs ms r',
+  revise r num vs ms = Ok r' ->
+  rnum r <> max64 /\ rnum r < num /\ rnum r' = num /\
+  map oval (rvalid r') = vs /\ map oval (rmissed r') = ms /\
+  same_but_values r r' /\ map oaddr (rmissed r') = map oaddr (rmissed r) /\
+  rsize r' = rsize r /\ rroot r' = rroot r.
+Proof. exact revise_sound. Qed.
+Print Assumptions c07_revise_from_renter_values.
+
+Theorem c07_clearing_from_renter_values : forall r vs r',
+  clearing_revision r vs = Ok r' ->
+  rnum r <> max64 /\ rnum r' = max64 /\ rsize r' = 0 /\ rroot r' = 0 /\
+  rmissed r' = rvalid r' /\ map oval (rvalid r') = vs /\ same_but_values r r'.
+Proof. exact clearing_revision_sound. Qed.
+Print Assumptions c07_clearing_from_renter_values.
+
+Theorem c07_initial_revision_keeps_contract : forall fc other uc,
+  rvalid (initial_revision fc other uc) = rvalid fc /\ rmissed (initial_revision fc other uc) = rmissed fc /\
+  rnum (initial_revision fc other uc) = 1 /\
+  rws (initial_revision fc other uc) = rws fc /\ rwe (initial_revision fc other uc) = rwe fc /\
+  ruh (initial_revision fc other uc) = ruh fc /\ rsize (initial_revision fc other uc) = rsize fc /\
+  rroot (initial_revision fc other uc) = rroot fc.
+Proof. exact initial_revision_shape. Qed.
+Print Assumptions c07_initial_revision_keeps_contract.
+
+(* no input of any shape (any output counts, any values, any arguments) makes validation panic *)
+Theorem c07_validate_std_no_panic : forall cur rv, validate_std cur rv <> Panic.
+Proof. exact validate_std_no_panic. Qed.
+Print Assumptions c07_validate_std_no_panic.
+
+Theorem c07_validate_revision_no_panic : forall cur rv payment collateral,
+  validate_revision cur rv payment collateral <> Panic.
+Proof. exact validate_revision_no_panic. Qed.
+Print Assumptions c07_validate_revision_no_panic.
+
+Theorem c07_validate_program_no_panic : forall cur rv storage collateral,
+  validate_program cur rv storage collateral <> Panic.
+Proof. exact validate_program_no_panic. Qed.
+Print Assumptions c07_validate_program_no_panic.
+
+Theorem c07_validate_payment_no_panic : forall cur rv payment,
+  validate_payment cur rv payment <> Panic.
+Proof. exact validate_payment_no_panic. Qed.
+Print Assumptions c07_validate_payment_no_panic.
+
+Theorem c07_validate_clearing_no_panic : forall cur fin payment,
+  validate_clearing cur fin payment <> Panic.
+Proof. exact validate_clearing_no_panic. Qed.
+Print Assumptions c07_validate_clearing_no_panic.
+
+Theorem c07_revise_no_panic : forall r num vs ms, revise r num vs ms <> Panic.
+Proof. exact revise_no_panic. Qed.
+Print Assumptions c07_revise_no_panic.
+
+Theorem c07_clearing_revision_no_panic : forall r vs, clearing_revision r vs <> Panic.
+Proof. exact clearing_revision_no_panic. Qed.
+Print Assumptions c07_clearing_revision_no_panic.
+
+(* all entry points the correspondence check drives *)
+Theorem c07_no_panic : forall c, run c <> Panic.
+Proof. exact run_no_panic. Qed.
+Print Assumptions c07_no_panic.
+
+(* The unpatched functions do panic (kept for the record): witnesses in Legacy.v *)
+Theorem c07_legacy_no_panic_refuted :
+  (exists cur rv p k, wf cur /\ inrange cur /\ inrange rv /\ Legacy.validate_revision cur rv p k = Panic) /\
+  (exists cur rv p, wf cur /\ inrange cur /\ inrange rv /\ Legacy.validate_payment cur rv p = Panic) /\
+  (exists cur rv p k, Legacy.validate_revision cur rv p k = Panic /\ (length (rvalid cur) < length (rvalid rv))%nat).
+Proof. exact Legacy.legacy_panics. Qed.
+Print Assumptions c07_legacy_no_panic_refuted.
+
+(* non-vacuity: a well-formed contract, an accepted revision of each kind, a rejection *)
+Example c07_nonvacuous :
+  wf ex_cur /\ inrange ex_cur
+  /\ validate_revision ex_cur (R 1 0 4194304 1 100 200 [O 1 990; O 2 510] [O 1 990; O 2 380; O 0 130] 1 6) 10 20 = Ok (10, 20)
+  /\ validate_program ex_cur (R 1 0 4194304 1 100 200 [O 1 1000; O 2 500] [O 1 1000; O 2 370; O 0 130] 1 6) 10 20 = Ok 30
+  /\ validate_payment ex_cur (R 1 0 4194304 1 100 200 [O 1 900; O 2 600] [O 1 900; O 2 500; O 0 100] 1 6) 100 = Ok tt
+  /\ validate_clearing ex_cur (R 1 0 0 0 100 200 [O 1 990; O 2 510] [O 1 990; O 2 510] 1 max64) 10 = Ok 10
+  /\ validate_revision ex_cur (R 1 0 4194304 1 100 200 [O 1 990; O 2 510] [O 1 990; O 2 380; O 0 130] 1 6) 11 20 = Err EInvalid.
+Proof. exact nonvacuous_ex. Qed.
